@@ -4,6 +4,7 @@ import (
 	"fmt"
 	"math/big"
 	"math/rand"
+	"os"
 	"strings"
 	"time"
 
@@ -145,7 +146,19 @@ func runLive(j Job) *Result {
 		r := rand.New(rand.NewSource(j.Seed*2038074743 + int64(i)))
 		l := &liveRun{s: st, hist: hist, r: r}
 		var w *ops.World
-		if j.Variant == "unpriced" {
+		variant := j.Variant
+		if variant == "" {
+			variant = os.Getenv("VERIF_LIVE_VARIANT")
+		}
+		if variant == "fuzz" {
+			// the cgo BLS code and every precompile's argument parsing: all histories of this pass are the fuzz family
+			l.fam = "precompile-fuzz"
+			w = l.ledger(j, i, "")
+			if w != nil && !w.Dead {
+				l.calldata(w)
+			}
+		}
+		if variant == "unpriced" {
 			l.fam = "unpriced-asset-slash"
 			w = l.unpricedSlash()
 		}
